@@ -175,8 +175,10 @@ def run_case(ctx, case):
     else:
       s = Stream(*period) if not any(hasattr(p, "__iter__") for p in period) \
           else None
-    if s is None:
-      s = Stream(itertools.cycle(period))
+    if s is None or h > size:
+      # (hop > size skips items: a skip loop that never ends would spin for
+      # ever on an endless source, so that branch gets a generous finite one)
+      s = Stream(itertools.islice(itertools.cycle(period), need + 64))
     st = s.blocks(size=size, hop=hop)
     if not isinstance(st, Stream):
       ctx.violation("blocks/stream-method-type", case, got=type(st).__name__)
